@@ -293,6 +293,8 @@ def scoping_rules(chk, P, only=None, exclude=()):
 
 def run(chk, ctx):
     P = Prog(ctx["facts"])
+    from .iter_rules import signal_api_rule
+    signal_api_rule(chk, P)   # what an input / output / bidirectional signal with a default *is*
     from .iter_rules import plumbing_rule
     plumbing_rule(chk, P, {"ParsedTestCase": ("signals", "signal_spans", "virtual_signals", "expected_inputs", "read_outputs"), "TestCase": ("signals", "input_indices", "expected_indices", "read_outputs")})   # what the parser / the binding produced is what runs
     L = panrules.Lemmas(P, chk)
